@@ -494,6 +494,16 @@ def rule_accumulators(ctx, rep: Report, rid="R3"):
     pw = prog.cls("PybindWrapper")
     resets: Dict[str, ast.AST] = {}
     for n in walk_no_nested(wf):
+        if isinstance(n, ast.Assign) and len(n.targets) > 1 and all(isinstance(t, ast.Attribute) and isinstance(t.value, ast.Name) and t.value.id == "self"
+                                                                     for t in n.targets) and _is_fresh_value(n.value):
+            # `self.a = self.b = []` binds both attributes to ONE list; with a constant it is an ordinary reset of each
+            shared = not isinstance(n.value, ast.Constant)
+            rep.add(rid, f"state:{'/'.join(t.attr for t in n.targets)}:each accumulator is re-initialised with a container of its own", not shared,
+                    f"`{unparse(n)[:60]}` makes the attributes aliases of one object: what is appended to one while the next file is wrapped shows up "
+                    f"in the other (submodule variables in the export block, exported classes in the submodule list)", f"{pw.mod.rel}:{n.lineno}")
+            if enclosing(n, (ast.If, ast.For, ast.While, ast.Try)) is None:
+                for t in n.targets:
+                    resets[t.attr] = n
         if isinstance(n, ast.Assign) and len(n.targets) == 1:
             t = n.targets[0]
             if isinstance(t, ast.Attribute) and isinstance(t.value, ast.Name) and t.value.id == "self" \
